@@ -3,22 +3,18 @@ import MythVerif.Proofs.WsQueueTsoTac
 namespace MythVerif.WsqTso
 open MythVerif.Wsq
 
-set_option maxHeartbeats 4000000 in
 theorem f_T_ptr4_ptl (s : St) (p : Pid) (e0 : Elem) (ok : Bool) (e) : Inv s → s.opc = .ptl e → s.lock = .thief p →
     s.bufT p = [.ptr (s.lb - 1) (some e0), .baseI (s.lb - 1) e0] → s.tpc p = .tp4 ok →
     Inv (applySto { s with bufT := upd s.bufT p [.baseI (s.lb - 1) e0] } (.ptr (s.lb - 1) (some e0))) := by
   intro h hopc hl h0 h1
   simp only [applySto]
-  cases h; simp only [hopc, ownerLocked, carry, resetting, ownerFlight] at *
-  tso_finish3
+  tso_fastO h hopc [tp3, tp4, carryC]
 
-set_option maxHeartbeats 4000000 in
 theorem f_T_ptr4_cll (s : St) (p : Pid) (e0 : Elem) (ok : Bool) : Inv s → s.opc = .cll → s.lock = .thief p →
     s.bufT p = [.ptr (s.lb - 1) (some e0), .baseI (s.lb - 1) e0] → s.tpc p = .tp4 ok →
     Inv (applySto { s with bufT := upd s.bufT p [.baseI (s.lb - 1) e0] } (.ptr (s.lb - 1) (some e0))) := by
   intro h hopc hl h0 h1
   simp only [applySto]
-  cases h; simp only [hopc, ownerLocked, carry, resetting, ownerFlight] at *
-  tso_finish3
+  tso_fastO h hopc [tp3, tp4, carryC]
 
 end MythVerif.WsqTso
